@@ -596,6 +596,8 @@ func runC13Concurrent(rc *RunCtx) {
 	if faulty {
 		s.SetFaults(60, 3, FaultErrNA)
 	}
+	s.SwarmFreeze()
+	rc.Cfg("sched", fmt.Sprintf("stall=%d yield_on_release=%v", s.FreezePermille, s.YieldOnRelease))
 	s.SetControlled()
 	for t := range scripts {
 		t := t
